@@ -43,11 +43,17 @@ class SerializeTraits<::std::vector<T, A>>
   static bool deserialize(CodedInputStream& is, Value& value) noexcept {
     if CONSTEXPR_SINCE_CXX17 (::std::is_same<float, T>::value ||
                               ::std::is_same<double, T>::value) {
-      auto num = static_cast<size_t>(is.BytesUntilLimit()) / sizeof(T);
-      value.reserve(value.size() + num);
+      // 不在limit范围内时BytesUntilLimit返回-1
+      auto bytes = is.BytesUntilLimit();
+      if (bytes > 0) {
+        value.reserve(value.size() + static_cast<size_t>(bytes) / sizeof(T));
+      }
     }
 
-    while (is.BytesUntilLimit() > 0) {
+    // 输入流没有外层limit时BytesUntilLimit恒为-1，需要和list等容器一样用是否还有数据来判定结束
+    const void* data = nullptr;
+    int size = 0;
+    while (is.GetDirectBufferPointer(&data, &size)) {
       value.emplace_back();
       if (ABSL_PREDICT_FALSE(!SerializationHelper::deserialize_packed_field(
               is, value.back()))) {
@@ -126,7 +132,9 @@ class SerializeTraits<::std::vector<bool, A>>
   }
 
   static bool deserialize(CodedInputStream& is, Value& value) noexcept {
-    while (is.BytesUntilLimit() > 0) {
+    const void* data = nullptr;
+    int size = 0;
+    while (is.GetDirectBufferPointer(&data, &size)) {
       bool result;
       if (ABSL_PREDICT_FALSE(
               !SerializationHelper::deserialize_packed_field(is, result))) {
